@@ -56,3 +56,34 @@ Proof. intros Ha Hb Hw Hq. pose proof (lower_bound a b wf wb Ha Hb Hw). lra. Qed
 (* T25: a variance that is the sum of a positive intensity part and a non-negative quadratic form is positive *)
 Lemma var_positive inten q : 0 < inten -> 0 <= q -> 0 < inten + q.
 Proof. intros; lra. Qed.
+
+(* exchanging the roles of the two directions changes nothing *)
+Lemma tmpw_symmetric Tf Tb vf vb : 0 < vf -> 0 < vb ->
+  tmpw Tf Tb vf vb == tmpw Tb Tf vb vf /\ approx vf vb == approx vb vf.
+Proof. intros. unfold tmpw, approx. split; field; repeat split; lra. Qed.
+(* the combined variance is at least half the smaller one (equality when the two variances are equal) *)
+Lemma approx_ge_half_min vf vb : 0 < vf -> 0 < vb -> vf <= vb -> vf / 2 <= approx vf vb.
+Proof.
+  intros Hf Hb Hle. rewrite (approx_eq _ _ Hf Hb). apply Qle_shift_div_l; [lra|].
+  assert (E: vf / 2 * (vf + vb) == (vf * vf + vf * vb) / 2) by field. rewrite E.
+  apply Qle_shift_div_r; [lra|]. nra.
+Qed.
+(* tmpw is at least as close to the direction with the smaller variance *)
+Lemma tmpw_nearer_the_better Tf Tb vf vb : 0 < vf -> 0 < vb -> vf <= vb ->
+  (tmpw Tf Tb vf vb - Tf) * (tmpw Tf Tb vf vb - Tf) <= (tmpw Tf Tb vf vb - Tb) * (tmpw Tf Tb vf vb - Tb).
+Proof.
+  intros Hf Hb Hle. rewrite (tmpw_convex _ _ _ _ Hf Hb).
+  set (s := vf + vb). assert (Hs: 0 < s) by (unfold s; lra).
+  assert (E1: vb / s * Tf + vf / s * Tb - Tf == (vf / s) * (Tb - Tf)) by (unfold s; field; lra).
+  assert (E2: vb / s * Tf + vf / s * Tb - Tb == (vb / s) * (Tf - Tb)) by (unfold s; field; lra).
+  rewrite E1, E2.
+  assert (H0: 0 <= vf / s) by (apply Qle_shift_div_l; lra).
+  assert (H1: vf / s <= vb / s). { unfold Qdiv. apply Qmult_le_compat_r; [exact Hle|]. apply Qlt_le_weak, Qinv_lt_0_compat, Hs. }
+  set (a := vf / s) in *. set (b := vb / s) in *. set (d := Tb - Tf).
+  assert (Ed: Tf - Tb == - d) by (unfold d; ring). rewrite Ed.
+  assert (0 <= d * d) by (destruct (Qlt_le_dec d 0); nra).
+  assert (a * a <= b * b) by nra. nra.
+Qed.
+(* equal variances: the plain average and half the variance *)
+Lemma tmpw_equal_var Tf Tb v : 0 < v -> tmpw Tf Tb v v == (Tf + Tb) / 2 /\ approx v v == v / 2.
+Proof. intros. unfold tmpw, approx. split; field; lra. Qed.
